@@ -1,6 +1,7 @@
 (* Props_C03.v — property C03 (an address is reclaimed only after the pod is gone and its teardown confirmed). *)
 From Coq Require Import ZArith List Bool.
 From TV Require Import IpamModel IpamRun IpamProofs IpamTrim.
+From TV Require RtModel RtRun RtProofs.
 Import ListNotations.
 Local Open Scope Z_scope.
 
@@ -49,4 +50,27 @@ Example c03_ex :
   let rt := fun u => if u =? 70 then 2 else if u =? 80 then 1 else 0 in
   map (fun i => i_pod (release_entry [mkPod 9 90 true false false 0 0] true rt i))
       [mkIp 1 1 false 7 70; mkIp 2 1 false 8 80; mkIp 3 1 false 9 91; mkIp 4 1 false 6 60; mkIp 5 1 false 5 0] = [0; 8; 9; 6; 0].
+Proof. vm_compute. reflexivity. Qed.
+
+(* ---- the node agent's side (third sentence): its teardown reports (pkg/eni/crdv2.go; model RtModel, tied by harness/rtflush) *)
+(* over every history of processed DELs, answered ADDs, flushes and clean-ups (each with failing or succeeding API calls),
+   changes of the cluster IPAM and removals of the NodeRuntime object: a uid is reported `deleted` only if a DEL for it was processed *)
+Theorem c03_reported_only_after_del : forall os e,
+  In e (RtModel.table (RtModel.run RtModel.init os)) -> RtModel.e_del e = true -> In (RtModel.e_uid e) (RtProofs.released os).
+Proof. exact RtProofs.reported_only_after_del. Qed.
+Print Assumptions c03_reported_only_after_del.
+(* a processed DEL is not forgotten: the uid stays recorded until an ADD for it is answered or a flush has saved its report *)
+Theorem c03_recorded_until_reported : forall s o u,
+  In u (RtModel.pend s) -> In u (RtModel.pend (RtModel.step s o)) \/ o = RtModel.OAnswer u \/
+  (exists g sv, o = RtModel.OFlush g sv /\ exists e, In e (RtModel.table (RtModel.step s o)) /\ RtModel.e_uid e = u /\ RtModel.e_del e = true).
+Proof. exact RtProofs.recorded_until_reported. Qed.
+Print Assumptions c03_recorded_until_reported.
+(* the periodic clean-up keeps the report for as long as the cluster IPAM names the uid *)
+Theorem c03_report_kept_while_bound : forall s g sv e,
+  In e (RtModel.table s) -> RtModel.e_del e = true -> In (RtModel.e_uid e) (RtModel.ipam s) -> In e (RtModel.table (RtModel.step s (RtModel.OSync g sv))).
+Proof. exact RtProofs.sync_keeps_report_while_bound. Qed.
+Print Assumptions c03_report_kept_while_bound.
+Example c03_report_ex :
+  RtRun.proj (RtModel.run RtModel.init [RtModel.OBind 2; RtModel.ORelease 2; RtModel.OFlush true false; RtModel.OFlush true true; RtModel.OSync true true; RtModel.OForget 2; RtModel.OSync true true])
+  = [0; 1; 0].
 Proof. vm_compute. reflexivity. Qed.
